@@ -105,8 +105,9 @@ def fill_part(a, i, c):
             fl[:] = c
 
 
-def res_differs(a, b):
-    """advertised results: 1e-9 relative (+1e-13) on values recomputed from re-assembled operators"""
+def res_differs(a, b, scale=0.0):
+    """advertised results: 1e-9 RELATIVE to the result's own scale (its largest magnitude at any saved iteration of
+    the scenario; no absolute floor) on values recomputed from re-assembled operators"""
     if isinstance(a, str) or isinstance(b, str) or a is None or b is None:
         return a is not b and a != b
     a, b = np.asarray(a, dtype=float), np.asarray(b, dtype=float)
@@ -117,8 +118,8 @@ def res_differs(a, b):
     with np.errstate(invalid="ignore"):
         d = np.abs(a - b)
     if np.isnan(a).any() or np.isnan(b).any():
-        return not np.array_equal(np.isnan(a), np.isnan(b)) or bool(np.nanmax(np.where(np.isnan(d), 0.0, d)) > 1e-9 * max(float(np.nanmax(np.abs(b))), 0.0) + 1e-13)
-    return bool(d.max() > 1e-9 * float(np.abs(b).max()) + 1e-13)
+        return not np.array_equal(np.isnan(a), np.isnan(b)) or bool(np.nanmax(np.where(np.isnan(d), 0.0, d)) > 1e-9 * max(float(np.nanmax(np.abs(b))), scale))
+    return bool(d.max() > 1e-9 * max(float(np.abs(b).max()), scale))
 
 
 def filled_like(a, c):
@@ -211,6 +212,7 @@ class Adapter:
             kw["alpha"] = 1 / 6
         simu.Solver_Set_Hyperbolic_Algorithm(dt=dt_explicit if algo == AlgoType.euler_explicit else dt_implicit, algo=algo, **kw)
 
+    Ls = 1.0               # case option: length scale of the meshes (coordinates multiplied by Ls)
     mixed = False          # case option: meshes with several element types of the main dimension
     supports_mixed = False
     elem_results = []      # element-wise Result() names compared (nodeValues=False) at every restore
@@ -219,8 +221,8 @@ class Adapter:
         nx, ny = MESH_SHAPES[self.nmesh_made % len(MESH_SHAPES)]
         self.nmesh_made += 1
         if self.mixed and self.supports_mixed:
-            return mixed_mesh(max(nx, 2), ny)
-        return quad_mesh(nx, ny)
+            return mixed_mesh(max(nx, 2), ny, self.Ls, self.Ls)
+        return quad_mesh(nx, ny, self.Ls, self.Ls)
 
     def live(self, simu):
         pt = simu.problemType
@@ -277,6 +279,30 @@ class Adapter:
         self.bc(simu, n)
         simu.Solve()
 
+    def inject(self, simu, arrays):
+        """bind the live fields to the given arrays through the protected API (None = leave that field)"""
+        simu._Set_solutions(simu.problemType, *[a for a in arrays if a is not None])
+
+
+def exotic_like(a, kind, seed):
+    """values OUTSIDE any physical range, of the shape/dtype of the live field a (restoration must be bitwise
+    whatever the values are)"""
+    if isinstance(a, dict) or a is None:
+        return None
+    rng = np.random.default_rng(seed)
+    a = np.asarray(a, dtype=float)
+    u = rng.uniform(size=a.shape)
+    if kind == "range":
+        return -0.5 + 2.0 * u                                  # negative and > 1 (a damage field!)
+    if kind == "huge":
+        return np.where(u < 0.5, -1.0, 1.0) * 1e30 * (0.5 + u)
+    if kind == "tiny":
+        return np.where(u < 0.3, 5e-324, np.where(u < 0.6, -1e-300 * u, 1e-300 * u))   # denormals too
+    if kind == "negzero":
+        return np.where(u < 0.4, -0.0, np.where(u < 0.7, 0.0, 1e-17 * (u - 0.85)))
+    base = a if np.any(a) else (u - 0.5)
+    return base * (2.0 ** -60 if kind == "down" else 2.0 ** 60)   # exactly scaled twin of the current field
+
 
 def _edges(simu):
     mesh = simu.mesh
@@ -300,7 +326,7 @@ class ElasticStatic(Adapter):
     def bc(self, simu, n):
         n0, nL = _edges(simu)
         simu.add_dirichlet(n0, [0, 0], ["x", "y"])
-        simu.add_dirichlet(nL, [1e-3 * (n + 1)], ["x"])
+        simu.add_dirichlet(nL, [1e-3 * (n + 1) * self.Ls], ["x"])
 
 
 class ElasticDyn(ElasticStatic):
@@ -423,6 +449,12 @@ class PhaseField(Adapter):
 
     def live(self, simu):
         return [simu.damage, simu.displacement]
+
+    def inject(self, simu, arrays):
+        if arrays[0] is not None:
+            simu._Set_solutions(simu.ProblemTypes.damage, arrays[0])
+        if arrays[1] is not None:
+            simu._Set_solutions(simu.ProblemTypes.elastic, arrays[1])
 
     def bc(self, simu, n):
         n0, nL = _edges(simu)
@@ -610,6 +642,9 @@ class Run:
         self.trace = []         # what every restore / read brought back, in order (memory-vs-disk comparison)
         self.ad = ADAPTERS[case["sim"]]()
         self.ad.mixed = bool(case.get("mixed"))
+        self.ad.Ls = float(case.get("coord_scale", 1.0))
+        self.field_scale = {}    # field index -> largest magnitude seen in this scenario (natural scale for tolerances)
+        self.injected = {}
         self.ad.algo = case.get("algo")
         self.ad.alpha = case.get("alpha")
         self.rates_nonzero = 0   # saved iterations whose rate fields (v, a / thermalDot) were all non-zero
@@ -679,7 +714,11 @@ class Run:
                 self.fail("element-results", step, {"iter": i, "via": via, "results": bade, "after_load_simu": self.loaded})
         if g[7] is not None and not bad:
             now = self.ad.all_results(s)
-            badr = sorted(k for k in g[7] if k not in now or res_differs(now[k], g[7][k]))
+            def hist_scale(k):
+                vs = [gg[7][k] for gg in self.ghost if gg[7] is not None and k in gg[7] and not isinstance(gg[7][k], str) and gg[7][k] is not None]
+                ms = [float(np.nanmax(np.abs(v))) for v in vs if np.size(v) and np.isfinite(np.asarray(v, dtype=float)).any()]
+                return max(ms + [0.0])
+            badr = sorted(k for k in g[7] if k not in now or res_differs(now[k], g[7][k], hist_scale(k)))
             if badr:
                 def fmt(v):
                     return v if isinstance(v, (str, float)) or v is None else "array max|.|=%.6g" % float(np.nanmax(np.abs(v))) if np.size(v) else "empty"
@@ -715,28 +754,42 @@ class Run:
             op = [name, i_now] + list(op[2:])
         if name == "Solve":
             toks = op[1]
-            if toks[0] in self.load_of:
+            if len(op) > 3 and op[2] == "inject":
+                # not a solve: the live fields are REBOUND (like a solve does) to arrays with non-physical values
+                if toks[0] not in self.injected:
+                    self.injected[toks[0]] = [exotic_like(a, op[3], 7919 * toks[0] + k) for k, a in enumerate(ad.live(s))]
+                ad.inject(s, [None if a is None else a.copy() for a in self.injected[toks[0]]])
+                for t, a in zip(toks, ad.live(s)):
+                    self.reg.setdefault(str(t), []).append(parts(a)["sha"])
+                    self.reg_arr[t] = deep(a)
+            elif toks[0] in self.load_of:
                 # continuation replay: same load as the Solve that originally produced these tokens, from the
-                # restored iteration it started from: must reproduce it (1e-9 relative: re-assembled operators)
+                # restored iteration it started from: must reproduce it (1e-9 RELATIVE to the field's own scale in
+                # this scenario: re-assembled operators)
                 ad.solve(s, self.load_of[toks[0]])
                 for k, (t, a) in enumerate(zip(toks, ad.live(s))):
                     ref = self.reg_arr[t]
                     if isinstance(a, dict):
                         d = max([float(np.max(np.abs(np.asarray(a[e]) - np.asarray(ref[e])))) if e in ref and np.shape(a[e]) == np.shape(ref[e]) else float("inf") for e in a] + [0.0 if set(a) == set(ref) else float("inf")])
-                        sc = max([float(np.max(np.abs(ref[e]))) for e in ref] + [1e-300])
+                        sc = max([float(np.max(np.abs(ref[e]))) for e in ref if np.size(ref[e])] + [0.0])
                     else:
                         d = float(np.max(np.abs(a - ref))) if np.shape(a) == np.shape(ref) else float("inf")
-                        sc = max(float(np.max(np.abs(ref))), 1e-300)
-                    if d > 1e-9 * sc + 1e-13:
+                        sc = float(np.max(np.abs(ref))) if np.size(ref) else 0.0
+                    sc = max(sc, self.field_scale.get(k, 0.0))
+                    if d > 1e-9 * sc:
                         self.fail("continuation-differs", n, {"field": ad.keys[k], "max_abs_diff": d, "scale": sc, "warm": self.warm_since_solve})
                     self.reg.setdefault(str(t), []).append(parts(a)["sha"])   # a replay may differ in the last bits
             else:
                 ad.solve(s, (self.nsolve + self.load_shift) % 7)
                 self.load_of[toks[0]] = (self.nsolve + self.load_shift) % 7
                 self.nsolve += 1
-                for t, a in zip(toks, ad.live(s)):
+                for k, (t, a) in enumerate(zip(toks, ad.live(s))):
                     self.reg[str(t)] = [parts(a)["sha"]]
                     self.reg_arr[t] = deep(a)
+                    f_ = flat(a)
+                    if f_.size and np.isfinite(f_).all():
+                        self.field_scale[k] = max(self.field_scale.get(k, 0.0), float(np.max(np.abs(f_))))
+            self.warm_since_solve = False
             self.check_store_vs_ghost(n, "Solve")
         elif name == "SaveIter":
             s.Save_Iter()
@@ -979,7 +1032,7 @@ def probe_inelastic_state(root):
     dz = max(float(np.max(np.abs(z2[k] - ref_z[k]))) for k in ref_z) if ref_z else 0.0
     plastic = any(float(np.max(np.abs(v))) > 0 for v in ref_z.values())
     return {"committed_restored": bool(committed_ok), "max_du": du, "max_dz": dz, "plastic_history_nonzero": bool(plastic),
-            "violates": bool((not committed_ok) or du > 1e-9 * float(np.max(np.abs(ref_u))) or dz > 1e-9)}
+            "violates": bool((not committed_ok) or du > 1e-9 * float(np.max(np.abs(ref_u))) or dz > 1e-9 * max([float(np.max(np.abs(v))) for v in ref_z.values()] + [0.0]))}
 
 
 def probe_algo_change(root):
